@@ -161,24 +161,29 @@ package regattaserver
 
 // the leader's KV API as seen by a follower
 //@ ghostfield any.ccalls Int
+//@ ghostfield any.lastCErr error
+//@ ghostfield any.lastCtx Iface
 //@ iface regattapb.KVClient.Put
 //@   assumed
 //@   params c, ctx, in, opts
 //@   results resp, err
 //@   ensures c.ccalls == old(c.ccalls) + 1 && (err == nil ==> resp != nil && resp.Header != nil)
-//@   modifies c.ccalls
+//@   ensures c.lastCErr == err && (err != nil ==> isStatus(err) && codeOf(err) != 0)      // ghost: the leader's verdict; errors of a gRPC client stub are status errors with a non-OK code
+//@   modifies c.ccalls, c.lastCErr
 //@ iface regattapb.KVClient.DeleteRange
 //@   assumed
 //@   params c, ctx, in, opts
 //@   results resp, err
 //@   ensures c.ccalls == old(c.ccalls) + 1 && (err == nil ==> resp != nil && resp.Header != nil)
-//@   modifies c.ccalls
+//@   ensures c.lastCErr == err && (err != nil ==> isStatus(err) && codeOf(err) != 0)      // ghost: the leader's verdict; errors of a gRPC client stub are status errors with a non-OK code
+//@   modifies c.ccalls, c.lastCErr
 //@ iface regattapb.KVClient.Txn
 //@   assumed
 //@   params c, ctx, in, opts
 //@   results resp, err
 //@   ensures c.ccalls == old(c.ccalls) + 1 && (err == nil ==> resp != nil && resp.Header != nil)
-//@   modifies c.ccalls
+//@   ensures c.lastCErr == err && (err != nil ==> isStatus(err) && codeOf(err) != 0)      // ghost: the leader's verdict; errors of a gRPC client stub are status errors with a non-OK code
+//@   modifies c.ccalls, c.lastCErr
 
 // waiting for the local copy: Add registers exactly one waiter for (table, revision) and hands back
 // its channel (ghost: number of waiters registered, revision of the last one)
@@ -188,8 +193,8 @@ package regattaserver
 //@   assumed
 //@   params q, ctx, table, revision
 //@   results ch
-//@   ensures ch != nil && q.nwait == old(q.nwait) + 1 && q.lastRev == revision
-//@   modifies q.nwait, q.lastRev
+//@   ensures ch != nil && q.nwait == old(q.nwait) + 1 && q.lastRev == revision && q.lastCtx == ctx
+//@   modifies q.nwait, q.lastRev, q.lastCtx
 
 // ForwardingKVServer.Put: forwarded to the leader exactly once; acknowledged only after waiting (one
 // receive from Add's channel) for the revision the leader reported
@@ -198,14 +203,20 @@ package regattaserver
 //@   requires r != nil && r.client != nil && r.q != nil && req != nil
 //@   ensures [C11.wait.put] r.client.ccalls == old(r.client.ccalls) + 1 && r.q.nwait <= old(r.q.nwait) + 1
 //@   ensures [C11.wait.rev] resp != nil ==> r.q.nwait == old(r.q.nwait) + 1 && resp.Header != nil && r.q.lastRev == resp.Header.Revision
-//@   modifies r.client.ccalls, r.q.nwait, r.q.lastRev
+//@   ensures [C11.wait.ctx] resp != nil ==> r.q.lastCtx == ctx      // the wait is bounded by the CALL's deadline and cancellation
+//@   dead return 1      // (the fallback for a non-status error: unreachable for errors of a gRPC client stub)
+//@   ensures [C16.fwd.code.put] r.client.lastCErr != nil ==> err != nil && codeOf(err) == codeOf(r.client.lastCErr)      // a refusal by the leader keeps its status code
+//@   modifies r.client.ccalls, r.client.lastCErr, r.q.nwait, r.q.lastRev, r.q.lastCtx
 
 //@ func (*ForwardingKVServer).DeleteRange
 //@   results resp, err
 //@   requires r != nil && r.client != nil && r.q != nil && req != nil
 //@   ensures [C11.wait.del] r.client.ccalls == old(r.client.ccalls) + 1 && r.q.nwait <= old(r.q.nwait) + 1
 //@   ensures [C11.wait.rev] resp != nil ==> r.q.nwait == old(r.q.nwait) + 1 && resp.Header != nil && r.q.lastRev == resp.Header.Revision
-//@   modifies r.client.ccalls, r.q.nwait, r.q.lastRev
+//@   ensures [C11.wait.ctx] resp != nil ==> r.q.lastCtx == ctx      // the wait is bounded by the CALL's deadline and cancellation
+//@   dead return 1      // (the fallback for a non-status error: unreachable for errors of a gRPC client stub)
+//@   ensures [C16.fwd.code.del] r.client.lastCErr != nil ==> err != nil && codeOf(err) == codeOf(r.client.lastCErr)      // a refusal by the leader keeps its status code
+//@   modifies r.client.ccalls, r.client.lastCErr, r.q.nwait, r.q.lastRev, r.q.lastCtx
 
 // ForwardingKVServer.Txn: a read-only transaction is answered locally THROUGH the validating KVServer;
 // any other is forwarded and waited for like a put
@@ -216,7 +227,10 @@ package regattaserver
 //@   ensures [C16.fwd.reject] len(req.Table) == 0 && old(allRange(req)) ==> err != nil && codeOf(err) == cInvalidArgument && r.KVServer.Storage.scalls == old(r.KVServer.Storage.scalls)
 //@   ensures [C11.wait.txn]   resp != nil && !old(allRange(req)) ==> r.q.nwait == old(r.q.nwait) + 1 && resp.Header != nil && r.q.lastRev == resp.Header.Revision
 //@   ensures [C16.fwd.local]  old(allRange(req)) ==> r.client.ccalls == old(r.client.ccalls)
-//@   modifies r.client.ccalls, r.q.nwait, r.q.lastRev, r.KVServer.Storage.scalls
+//@   ensures [C11.wait.ctx]   resp != nil && !old(allRange(req)) ==> r.q.lastCtx == ctx
+//@   dead return 2
+//@   ensures [C16.fwd.code.txn] !old(allRange(req)) && r.client.lastCErr != nil ==> err != nil && codeOf(err) == codeOf(r.client.lastCErr)
+//@   modifies r.client.ccalls, r.client.lastCErr, r.q.nwait, r.q.lastRev, r.q.lastCtx, r.KVServer.Storage.scalls
 //@ pure func allRange(req *regattapb.TxnRequest) bool = (forall j int :: 0 <= j && j < len(req.Success) ==> typeIs(req.Success[j].Request, *regattapb.RequestOp_RequestRange)) && (forall j int :: 0 <= j && j < len(req.Failure) ==> typeIs(req.Failure[j].Request, *regattapb.RequestOp_RequestRange))
 
 // ---------------------------------------------------------------- snapshot stream (C07)
@@ -246,11 +260,14 @@ package regattaserver
 // and answers with the applied index of that same view (fsm.commandSnapshot, C07.capture.*)
 // (ghost snapIdx of the writer: the applied index of the view whose pairs it was just given)
 //@ ghostfield any.snapIdx uint64
+// (volatile ghost snapok: the capture just made went through to the end - forgotten at the next call)
+//@ ghostfield volatile any.snapok Bool
 //@ func table.(*ActiveTable).Snapshot
 //@   assumed
 //@   results resp, err
 //@   ensures err == nil ==> resp != nil && fresh(resp) && writer.snapIdx == resp.Index
-//@   modifies writer.sdata, writer.slen, writer.nmsg, writer.msg, writer.snapIdx
+//@   ensures world.snapok == (err == nil)
+//@   modifies writer.sdata, writer.slen, writer.nmsg, writer.msg, writer.snapIdx, world.snapok
 //@ func (*SnapshotServer).Stream$1
 //@   requires *sf != nil && (*sf).w != nil && (*sf).File != nil
 //@   modifies (*sf).w.flushed, (*sf).w.busy
@@ -479,6 +496,7 @@ package regattaserver
 //@   requires m != nil && m.Tables != nil && req != nil && srv != nil
 //@   before regattaserver.TableService.GetTable assert [C07.backup.table] name == string(req.Table)
 //@   before table.(*ActiveTable).Snapshot assert [C07.backup.into] typeIs(writer, *snapshot.snapshotFile) && asType(writer, *snapshot.snapshotFile) != nil
+//@   before snapshot.(*snapshotFile).Sync assert [C07.backup.complete] world.snapok      // a capture that failed is not shipped as a backup
 //@   before bufio.NewReaderSize assert [C07.backup.rewound+C18] typeIs(rd, *os.File) && asType(rd, *os.File) == sf.File && sf.w.flushed && sf.File.rest == sf.File.whole
 //@   modifies family(G_any_sdata), family(G_any_slen), family(G_any_nmsg), family(G_any_msg), family(G_any_rest), family(G_any_flushed), family(G_any_busy), family(G_any_nsent), family(G_any_sdataAt), family(G_any_slenAt)
 //@ func (*BackupServer).Restore
